@@ -132,103 +132,16 @@ def _outcomes_forwarded(ctx, f, label, inner):
 
 
 def C18_1(ctx, facts):
-    f = facts.unit(facts.method("bridge::io::TokioIo", "hyper::rt::Read", "poll_read"), expand=True)
-    ctx.touched(f)
-    inner = [c for c in f.calls() if norm(c.decl or c.name).endswith("AsyncRead::poll_read")]
-    adv = [c for c in f.calls() if c.matches(r"ReadBufCursor.*::advance$")]
-    un = [c for c in f.calls() if c.matches(r"tokio::io::ReadBuf.*::uninit$")]
-    ctx.floor("TokioIo Read|inner-read", len(inner), 1, "inner AsyncRead::poll_read")
-    ctx.floor("TokioIo Read|advance", len(adv), 1, "cursor advance")
-    ctx.floor("TokioIo Read|tbuf", len(un), 1, "ReadBuf::uninit")
-    for c in un:
-        rr = f.roots(c.args[0])
-        ctx.check(any(r.kind == "call" and r.site.matches(r"ReadBufCursor.*::as_mut$") for r in rr) and any(r.kind == "arg" and r.desc == "buf" for r in rr), "TokioIo Read|tbuf-over-cursor",
-                  "the tokio buffer is built over the caller's cursor (buf.as_mut())", "tbuf roots %s" % sorted(map(repr, sig(rr))), c.where())
-    ib = {c.bb for c in inner}
-    ok_edge = L_result(f, True, ib)
-    for c in inner:
-        rb = f.roots(c.args[2], through_calls=False)
-        ctx.check(any(r.kind == "call" and r.site.bb in {u.bb for u in un} for r in rb), "TokioIo Read|inner-gets-tbuf", "the inner read fills that buffer", "inner read buffer roots %s" % sorted(map(repr, rb)), c.where())
-        ctx.check(any(r.kind == "arg" and getattr(r, "index", None) == 2 for r in f.roots(c.args[1], through_calls=False)), "TokioIo Read|inner-gets-cx", "cx passed on", "cx not passed", c.where())
-    for c in adv:
-        g, w = f.guarded(c.bb, ok_edge)
-        ctx.check(g, "TokioIo Read|advance-on-ok", "the cursor is advanced only on Ready(Ok(()))", "cursor advanced on another outcome", c.where(), f.path_desc(w))
-        fl = _len_of(f, c.args[1], r"tokio::io::ReadBuf.*::filled$")
-        ok = fl is not None and any(r.kind == "call" and r.site.bb in {u.bb for u in un} for r in f.roots(fl.args[0], through_calls=False)) and \
-            all(f.dominates(i.bb, fl.bb) for i in inner)
-        ctx.check(ok, "TokioIo Read|advance-by-filled", "advance(n) with n = tbuf.filled().len() measured after the read", "advance amount is not tbuf.filled().len() after the read", c.where())
-        rc = f.roots(c.args[0], through_calls=False)
-        ctx.check(any(r.kind == "arg" and r.desc == "buf" for r in rc), "TokioIo Read|advance-caller-cursor", "it is the caller's cursor that is advanced", "advance target roots %s" % sorted(map(repr, rc)), c.where())
-    # other outcomes returned unchanged
-    _outcomes_forwarded(ctx, f, "TokioIo Read", inner)
+    """hyper::rt::Read for TokioIo<T: AsyncRead>: decision table of the bridge (bridgetable.py)."""
+    import bridgetable
+    bridgetable.hyper_read_table(ctx, facts)
 
 
 def C18_2(ctx, facts):
-    f = facts.unit(facts.method("bridge::io::TokioIo", "tokio::io::AsyncRead", "poll_read"), expand=True)
-    ctx.touched(f)
-    inner = [c for c in f.calls() if norm(c.decl or c.name).endswith("rt::Read::poll_read") or c.matches(r"hyper::rt::(io::)?Read.*::poll_read$")]
-    sf = [c for c in f.calls() if c.matches(r"tokio::io::ReadBuf.*::set_filled$")]
-    ai = [c for c in f.calls() if c.matches(r"tokio::io::ReadBuf.*::assume_init$")]
-    un = [c for c in f.calls() if c.matches(r"hyper::rt::(io::)?ReadBuf.*::uninit$")]
-    ctx.floor("TokioIo AsyncRead|inner-read", len(inner), 1, "inner Read::poll_read")
-    ctx.floor("TokioIo AsyncRead|set_filled", len(sf), 1, "set_filled")
-    ctx.floor("TokioIo AsyncRead|assume_init", len(ai), 1, "assume_init")
-    ctx.floor("TokioIo AsyncRead|sub-buffer", len(un), 1, "hyper ReadBuf::uninit")
-    ib = {c.bb for c in inner}
-    for c in un:
-        rr = f.roots(c.args[0])
-        ctx.check(any(r.kind == "call" and r.site.matches(r"tokio::io::ReadBuf.*::unfilled_mut$") for r in rr) and any(r.kind == "arg" and r.desc == "tbuf" for r in rr),
-                  "TokioIo AsyncRead|sub-buffer-over-unfilled", "the hyper buffer covers exactly tbuf.unfilled_mut()", "sub-buffer roots %s" % sorted(map(repr, sig(rr))), c.where())
-    ok_edge = L_result(f, True, ib)
-    for c in sf + ai:
-        g, w = f.guarded(c.bb, ok_edge)
-        ctx.check(g, "TokioIo AsyncRead|%s-on-ok" % norm(c.name).split("::")[-1], "bookkeeping only on Ready(Ok(()))", "bookkeeping on another outcome", c.where(), f.path_desc(w))
-    for c in sf:
-        p = op_place(c.args[1])
-        d = None
-        l = p["l"] if p else None
-        # follow copies to the AddWithOverflow / Add result
-        add = None
-        for _ in range(5):
-            d = f.unique_def(l) if l is not None else None
-            if d and d[0] == "stmt" and d[3]["r"]["k"] == "binop" and d[3]["r"]["op"] in ("Add", "AddWithOverflow", "AddUnchecked"):
-                add = d[3]["r"]
-                break
-            if d and d[0] == "stmt" and d[3]["r"]["k"] == "use" and op_place(d[3]["r"]["o"]):
-                l = op_place(d[3]["r"]["o"])["l"]
-                continue
-            break
-        if add is None:
-            ctx.bad("TokioIo AsyncRead|set_filled-sum", "set_filled argument is not a sum (filled_before + sub_filled)", c.where())
-            continue
-        def src(o):
-            q = op_place(o)
-            ll = q["l"]
-            for _ in range(4):
-                dd = f.unique_def(ll)
-                if dd and dd[0] == "stmt" and dd[3]["r"]["k"] == "use" and op_place(dd[3]["r"]["o"]) and not op_place(dd[3]["r"]["o"])["p"]:
-                    ll = op_place(dd[3]["r"]["o"])["l"]
-                else:
-                    break
-            return {"c": {"l": ll, "p": []}}
-        a = _len_of(f, src(add["a"]), r"tokio::io::ReadBuf.*::filled$")
-        b = _len_of(f, src(add["b"]), r"hyper::rt::(io::)?ReadBuf.*::filled$")
-        if a is None and b is None:
-            a = _len_of(f, src(add["b"]), r"tokio::io::ReadBuf.*::filled$")
-            b = _len_of(f, src(add["a"]), r"hyper::rt::(io::)?ReadBuf.*::filled$")
-        ok = a is not None and b is not None and all(f.dominates(a.bb, i.bb) for i in inner) and all(f.dominates(i.bb, b.bb) for i in inner) and \
-            any(r.kind == "arg" and r.desc == "tbuf" for r in f.roots(a.args[0], through_calls=False)) and \
-            any(r.kind == "call" and r.site.bb in {u.bb for u in un} for r in f.roots(b.args[0], through_calls=False))
-        ctx.check(ok, "TokioIo AsyncRead|set_filled-sum", "set_filled(tbuf.filled().len() [before the read] + sub.filled().len() [after it])",
-                  "set_filled amount is not filled_before + sub_filled", c.where())
-    for c in ai:
-        b = _len_of(f, {"c": {"l": _copy_src(f, c.args[1]), "p": []}}, r"hyper::rt::(io::)?ReadBuf.*::filled$")
-        ok = b is not None and all(f.dominates(i.bb, b.bb) for i in inner)
-        ctx.check(ok, "TokioIo AsyncRead|assume_init-sub", "assume_init(sub.filled().len()): exactly the bytes the inner read reported", "assume_init amount is not sub_filled", c.where())
-    for c in inner:
-        rb = f.roots(c.args[2], through_calls=True)
-        ctx.check(any(r.kind == "call" and r.site.bb in {u.bb for u in un} for r in rb), "TokioIo AsyncRead|inner-gets-sub", "the inner read fills the sub-buffer", "inner read buffer roots %s" % sorted(map(repr, sig(rb))), c.where())
-    _outcomes_forwarded(ctx, f, "TokioIo AsyncRead", inner)
+    """tokio::io::AsyncRead for TokioIo<T: hyper Read>: decision table of the bridge (bridgetable.py)."""
+    import bridgetable
+    bridgetable.tokio_read_table(ctx, facts)
+
 
 
 def _copy_src(f, operand):
